@@ -516,9 +516,33 @@ func (r *c08Run) govUpdate() {
 		}
 	case 0:
 		t := r.tok()
+		if r.rng.IntN(2) == 0 {
+			for _, x := range e.W.Tokens { // (every second time the externally owned token: its coins are locked, not burned)
+				if x.Kind == fix.KindExternal {
+					t = x
+				}
+			}
+		}
 		what = "toggle " + t.Symbol
 		res = c.Msg(&erc20types.MsgToggleTokenConversion{Authority: gov, Token: t.Base})
 		if res.OK() { // and back, so that conversions keep working
+			// while the switch is off a holder sends coins of the token out over the bridge: whether they are
+			// locked or burned there depends on who owns the token, not on the switch (books checked in between)
+			if u := r.usr(); r.rng.IntN(2) == 0 {
+				if bal := c.Balance(c.Ctx, u.Acc(), t.Base); bal.GT(sdkmath.NewInt(10)) {
+					amt := sdkmath.NewInt(int64(2 + r.rng.IntN(8)))
+					_, sr := e.B.SendToExternal(u, e.Other.Hex(), sdk.NewCoin(t.Base, amt), sdk.NewCoin(t.Base, sdkmath.OneInt()))
+					r.logf("send %s %s over the bridge while its conversion is switched off: %s", amt, t.Symbol, short(sr.ErrString()))
+					r.res.Count("bridge_sends_while_conversion_is_off", 1)
+					if t.Kind == fix.KindExternal {
+						r.res.Count("bridge_sends_of_an_externally_owned_token_while_conversion_is_off", 1)
+					}
+					if sr.OK() {
+						r.res.Count("bridge_sends_while_conversion_is_off_ok", 1)
+					}
+					r.checkBooks("bridge send of " + t.Symbol + " while its conversion is switched off")
+				}
+			}
 			c.Msg(&erc20types.MsgToggleTokenConversion{Authority: gov, Token: t.ERC20.Hex()})
 		}
 	case 1:
